@@ -128,7 +128,8 @@ def _writes_through_shallow_copy(repo, ci, fa: FnAlias, nd, target: ast.Attribut
         prop = ci.lookup_prop(target.attr)
         if prop is None or prop.setter is None:
             continue
-        se = _SE_CACHE.setdefault(ci.qual, SelfEffects(repo, ci))
+        cache = repo.__dict__.setdefault("_c11_se_cache", {})
+        se = cache.setdefault(ci.qual, SelfEffects(repo, ci))
         summ = se.summary(prop.setter)
         for x in sorted(summ.mutates):
             roots = fa.roots_of_path(nd, f"{local}.{x}")
@@ -180,7 +181,7 @@ def _r1(chk, repo):
                 if why is not None:
                     continue
             nfun += 1
-            fa = FnAlias(fn)
+            fa = FnAlias(fn, method_resolver=(lambda nm, _ci=ci: (_ci.lookup(nm) or (None, None))[1]) if ci is not None else None)
             a = fn.args
             fresh_params = {f"param:{x.arg}" for x in ([a.vararg] if a.vararg else []) + ([a.kwarg] if a.kwarg else [])}
             sites = []
